@@ -198,6 +198,11 @@ fn g_sinhalf(x: f64) -> f64 { bump(); 1.0 + 0.5 * x.sin() }
 fn g_affine(x: f64) -> f64 { bump(); 0.25 * x + 3.0 }
 fn g_quad(x: f64) -> f64 { bump(); (x * x + 1.0) / 3.0 }
 fn g_atan(x: f64) -> f64 { bump(); 1.0 + 0.5 * x.atan() }
+fn g_logshift(x: f64) -> f64 { bump(); (x + 2.0).ln() }
+fn g_sin09(x: f64) -> f64 { bump(); 0.9 * x.sin() + 0.3 }
+// affine map with the case's own slope and intercept (the API takes a plain fn pointer)
+thread_local! { static AFFP: RefCell<(f64, f64)> = const { RefCell::new((0.0, 0.0)) }; }
+fn g_affp(x: f64) -> f64 { bump(); let (s, c) = AFFP.with(|p| *p.borrow()); s * x + c }
 
 fn run_steffensen(case: &Value) -> Value {
     let g: fn(f64) -> f64 = match case["g"].as_str().unwrap() {
@@ -208,6 +213,13 @@ fn run_steffensen(case: &Value) -> Value {
         "affine" => g_affine,
         "quad" => g_quad,
         "atan" => g_atan,
+        "logshift" => g_logshift,
+        "sin09" => g_sin09,
+        "affp" => {
+            let gp = jfv(&case["gp"]);
+            AFFP.with(|p| *p.borrow_mut() = (gp[0], gp[1]));
+            g_affp
+        }
         k => panic!("unknown map {k}"),
     };
     STEFF_CALLS.with(|c| *c.borrow_mut() = 0);
